@@ -6,7 +6,8 @@
 //	harness.bin serve                       line protocol (one JSON request per line, one JSON answer per line):
 //	                                        materialise a forest of target files in a scratch directory (or use an
 //	                                        existing directory) and run the REAL loader (targets.NewResolver(dir).Resolve,
-//	                                        Loader.LoadAll) on it.  A fatal stack overflow kills this process; the check
+//	                                        Loader.LoadAll) on it; a request with "ops" is a script of resolve / has / list / all
+//	                                        calls on ONE Resolver (history dependence).  A fatal stack overflow kills this process; the check
 //	                                        treats the missing answer as the observation "crash" and restarts the harness.
 //
 // The module path sits under github.com/goplus/llgo/internal/, so the internal package is imported unchanged.
@@ -43,8 +44,8 @@ type fieldFact struct {
 type facts struct {
 	Config     []fieldFact `json:"config"`
 	Raw        []fieldFact `json:"raw"`
-	Merged     []string    `json:"merged"`     // fields F with `dst.F = …` / `dst.F op= …` / `&dst.F` in mergeConfig
-	SrcRead    []string    `json:"src_read"`   // fields F with `src.F` mentioned in mergeConfig
+	Merged     []string    `json:"merged"`   // fields F with `dst.F = …` / `dst.F op= …` / `&dst.F` in mergeConfig
+	SrcRead    []string    `json:"src_read"` // fields F with `src.F` mentioned in mergeConfig
 	MergeFound bool        `json:"merge_found"`
 }
 
@@ -203,6 +204,18 @@ type request struct {
 	Seq   []string          `json:"seq"`   // names to resolve, in this order
 	Fresh bool              `json:"fresh"` // a new Resolver for every name (else one Resolver for the whole sequence)
 	All   bool              `json:"all"`   // also call ResolveAll
+	// Ops: a script executed on ONE Resolver, in order (history dependence): ["resolve", N] | ["has", N] | ["list"] | ["all"]
+	Ops [][]string `json:"ops"`
+}
+
+// one answer per script op
+type opResult struct {
+	Res  *result           `json:"res,omitempty"`  // resolve
+	Has  *bool             `json:"has,omitempty"`  // HasTarget
+	List []string          `json:"list,omitempty"` // ListAvailableTargets
+	All  map[string]result `json:"all,omitempty"`  // ResolveAll
+	Err  string            `json:"err,omitempty"`  // error class of list / all, or "panic"
+	Msg  string            `json:"msg,omitempty"`
 }
 
 type result struct {
@@ -215,6 +228,48 @@ type answer struct {
 	Res    []result          `json:"res"`
 	All    map[string]result `json:"all,omitempty"`
 	AllErr string            `json:"all_err,omitempty"`
+	Script []opResult        `json:"script,omitempty"`
+}
+
+func runOp(r *targets.Resolver, op []string) (o opResult) {
+	defer func() {
+		if e := recover(); e != nil {
+			o = opResult{Err: "panic", Msg: fmt.Sprint(e)}
+		}
+	}()
+	switch {
+	case len(op) == 2 && op[0] == "resolve":
+		res := resolveOne(r, op[1])
+		return opResult{Res: &res}
+	case len(op) == 2 && op[0] == "has":
+		h := r.HasTarget(op[1])
+		return opResult{Has: &h}
+	case len(op) == 1 && op[0] == "list":
+		l, err := r.ListAvailableTargets()
+		if err != nil {
+			return opResult{Err: classify(err).Err, Msg: err.Error()}
+		}
+		if l == nil {
+			l = []string{}
+		}
+		return opResult{List: append([]string{"."}, l...)} // leading "." keeps an empty listing visible
+	case len(op) == 1 && op[0] == "all":
+		all, err := r.ResolveAll()
+		if err != nil {
+			c := classify(err)
+			return opResult{Err: c.Err, Msg: c.Msg}
+		}
+		m := map[string]result{}
+		for k, c := range all {
+			if c == nil {
+				m[k] = result{Err: "nil-config"}
+			} else {
+				m[k] = result{Ok: dump(c)}
+			}
+		}
+		return opResult{All: m}
+	}
+	return opResult{Err: "bad-op"}
 }
 
 // dump renders every field of the resolved Config by reflection (so a field added later is reported too);
@@ -301,6 +356,12 @@ func handle(req request) (ans answer, err error) {
 	}
 	r := targets.NewResolver(dir)
 	ans.Res = []result{}
+	if len(req.Ops) > 0 {
+		for _, op := range req.Ops {
+			ans.Script = append(ans.Script, runOp(r, op))
+		}
+		return ans, nil
+	}
 	for _, name := range req.Seq {
 		if req.Fresh {
 			r = targets.NewResolver(dir)
